@@ -6,7 +6,7 @@ import tempfile
 import vlib
 
 TAGS = {0: "ORDER", 1: "OP", 2: "CB", 3: "BEFORE_SLEEP", 4: "BEFORE_HANDLE", 5: "IDLE", 6: "DISPATCH", 7: "BATCH",
-        8: "STATS", 9: "EPOLL", 10: "PANIC", 16: "REGOP", 12: "SLOT", 13: "LIFECYCLE", 14: "WHEEL", 15: "DROP"}
+        8: "STATS", 9: "EPOLL", 10: "PANIC", 16: "REGOP", 17: "CMD", 12: "SLOT", 13: "LIFECYCLE", 14: "WHEEL", 15: "DROP"}
 OPS = {1: "insert", 2: "remove", 3: "disable", 4: "enable", 5: "update", 6: "setint", 7: "setdl", 8: "intoinner",
        9: "dropdisp", 10: "send", 11: "trysend"}
 
@@ -131,7 +131,7 @@ def segments(trace):
         if ws[0] == "2":
             cur = (ws, [])
             segs.append(cur)
-        elif ws[0] in ("5", "6", "7", "3", "4", "10", "0", "8", "9", "12", "13", "14"):
+        elif ws[0] in ("5", "6", "7", "3", "4", "10", "0", "8", "9", "12", "13", "14", "17"):
             cur = None
         elif cur is not None:
             cur[1].append(ws)
